@@ -1,9 +1,10 @@
 #!/usr/bin/env python3
-"""seed_store.py <prop> <i>: store a confirmed mutant from /tmp/wt/<prop>-out into /verif/seeded/<prop>-<i>/"""
+"""seed_store.py <prop> <i> [<dst index>]: store a confirmed mutant from /tmp/wt/<prop>-out into /verif/seeded/<prop>-<i>/"""
 import sys, os, shutil, json, subprocess, re
 prop, i = sys.argv[1], sys.argv[2]
+dsti = sys.argv[3] if len(sys.argv) > 3 else i
 src = f"/tmp/wt/{prop}-out"
-dst = f"/verif/seeded/{prop}-{i}"
+dst = f"/verif/seeded/{prop}-{dsti}"
 os.makedirs(dst, exist_ok=True)
 shutil.copy(f"{src}/patch{i}.diff", f"{dst}/patch.diff")
 shutil.copy(f"{src}/demo{i}_test.go", f"{dst}/demo_test.go")
